@@ -1792,6 +1792,119 @@ def scenario_certify_guess(cid, k=0):
             "store": render_store(store), "steps": steps}
 
 
+def boost_violation_second_exemption(rng, case):
+    """one crate with TWO exemptions inside the range of one violation entry: the one listed first is for a version reached
+    through a dev-dependency only and claims safe-to-run, the one listed second claims the violated criterion
+    (safe-to-deploy): the conflict with the SECOND exemption must be reported whatever the first one says"""
+    store = case["store_struct"]
+    pkgs = case["graph"]["packages"]
+    ws = [p for p in pkgs if p["workspace"]]
+    dp, notes = _isolate_crate(rng, case, 4800)
+    if dp is None or not ws:
+        return case
+    lo = rng.choice([x for x in VERSIONS if "-" not in x and x != dp["version"]])
+    pkgs.append({"name": dp["name"], "version": lo, "source": "registry", "workspace": False, "deps": []})
+    ws[0]["deps"].append({"name": dp["name"], "version": lo, "source": "registry", "kinds": ["dev"]})
+    a = {"version": lo, "criteria": ["safe-to-run"], "suggest": True, "notes": notes()}
+    b = {"version": dp["version"], "criteria": ["safe-to-deploy"], "suggest": rng.random() < 0.5, "notes": notes()}
+    store["exemptions"][dp["name"]] = [a, b]
+    viol = {"kind": "violation", "violation": rng.choice(["*", ">=0.0.1"]), "criteria": ["safe-to-deploy"], "notes": notes()}
+    if store["lock"]["audits"] and rng.random() < 0.4:
+        peer = sorted(store["lock"]["audits"])[0]
+        store["lock"]["audits"][peer].setdefault("audits", {})[dp["name"]] = [viol]
+    else:
+        store["audits"][dp["name"]] = [viol]
+    for k_ in [k_ for k_ in store["policy"] if k_.split(":")[0] == dp["name"]]:
+        del store["policy"][k_]
+    return case
+
+
+def scenario_shared_exemption_two_needs(cid, k=0):
+    """deterministic history: two in-graph versions of one crate vetted through the SAME exemption (of the lower version; a
+    delta audit leads on to the higher one) for DIFFERENT criteria — the lower version, reached through a parent whose policy
+    asks for crit-a (k=0) / as a normal dependency (k=1), needs more than the higher one.  A pruning update must write an
+    exemption that still means everything it is needed for: the store keeps passing."""
+    hi_need, lo_need = (["safe-to-deploy"], ["safe-to-deploy", "crit-a"]) if k % 2 == 0 else (["safe-to-run"], ["safe-to-deploy"])
+    pkgs = [{"name": "wsaaa", "version": "1.0.0", "source": "path", "workspace": True,
+             "deps": [{"name": "tpaaa", "version": "2.0.0", "source": "registry", "kinds": ["normal"] if k % 2 == 0 else ["dev"]},
+                      {"name": "tpbbb", "version": "1.0.0", "source": "registry", "kinds": ["normal"]}]},
+            {"name": "tpaaa", "version": "2.0.0", "source": "registry", "workspace": False, "deps": []},
+            {"name": "tpaaa", "version": "1.0.0", "source": "registry", "workspace": False, "deps": []},
+            {"name": "tpbbb", "version": "1.0.0", "source": "registry", "workspace": False,
+             "deps": [{"name": "tpaaa", "version": "1.0.0", "source": "registry", "kinds": ["normal"]}]}]
+    table = {"crit-a": {"description": "another", "implies": []}} if k % 2 == 0 else {}
+    policy = {"tpbbb:1.0.0": {"dependency-criteria": {"tpaaa": lo_need}}} if k % 2 == 0 else {}
+    every = sorted(set(hi_need) | set(lo_need), key=lambda c: (c not in BUILTINS, c))
+    store = {"criteria": table, "policy": policy, "imports": {},
+             "audits": {"tpaaa": [{"kind": "delta", "from": "1.0.0", "to": "2.0.0", "criteria": every, "notes": "the step up"}]},
+             "wildcard_audits": {}, "trusted": {},
+             "exemptions": {"tpaaa": [{"version": "1.0.0", "criteria": every, "suggest": True, "notes": "the shared one"}],
+                            "tpbbb": [{"version": "1.0.0", "criteria": ["safe-to-deploy"], "suggest": True, "notes": "n"}]},
+             "lock": {"audits": {}, "publisher": {}, "unpublished": {}}}
+    registry = {"users": [[1, "user1", "User 1"]], "packages": {}, "meta": {}}
+    remote = render_remote({}, registry)
+    cmds = [[["prune"], ["check", "--locked"], ["prune"]], [["check"], ["prune"], ["check", "--locked"]]][k % 2]
+    return {"id": cid, "kind": "history", "graph": {"packages": pkgs}, "store_struct": store,
+            "store": render_store(store), "steps": [{"args": a, "remote": remote} for a in cmds]}
+
+
+def scenario_lapsed_peer_wildcard(cid, k=0):
+    """deterministic history: a crate certified ONLY by a peer's wildcard audit whose window ended before today (it still
+    vouches for what was published inside the window) and the matching publisher record, both in imports.lock and still served.
+    The store passes; `prune` / `regenerate imports` must leave it passing."""
+    peer, url = PEERS[0]
+    pkgs = [{"name": "wsaaa", "version": "1.0.0", "source": "path", "workspace": True,
+             "deps": [{"name": "tpaaa", "version": "2.0.0", "source": "registry", "kinds": ["normal"]}]},
+            {"name": "tpaaa", "version": "2.0.0", "source": "registry", "workspace": False, "deps": []}]
+    w = {"user-id": 1, "start": "2022-01-01", "end": ["2022-12-31", "2022-06-15"][k % 2], "criteria": ["safe-to-deploy"], "notes": "lapsed"}
+    pub = {"version": "2.0.0", "when": "2022-06-15", "user-id": 1, "user-login": "user1", "user-name": "User 1"}
+    store = {"criteria": {}, "policy": {}, "imports": {peer: {"url": [url]}}, "exemptions": {}, "audits": {}, "wildcard_audits": {}, "trusted": {},
+             "lock": {"audits": {peer: {"criteria": {}, "audits": {}, "wildcard_audits": {"tpaaa": [dict(w)]}}},
+                      "publisher": {"tpaaa": [pub]}, "unpublished": {}}}
+    peers = {url: {"criteria": {}, "audits": {}, "wildcard_audits": {"tpaaa": [dict(w)]}, "trusted": {}}}
+    registry = {"users": [[1, "user1", "User 1"]], "packages": {"tpaaa": [{"version": "2.0.0", "by": 1, "when": "2022-06-15"}]}, "meta": {}}
+    remote = render_remote(peers, registry)
+    cmds = [[["prune"], ["check", "--locked"], ["check"]], [["regenerate", "imports"], ["check", "--locked"], ["prune"]]][k % 2]
+    return {"id": cid, "kind": "history", "graph": {"packages": pkgs}, "store_struct": store,
+            "store": render_store(store), "steps": [{"args": a, "remote": remote} for a in cmds]}
+
+
+def scenario_overlap_redundant_exemption(cid, k=0):
+    """deterministic history: one crate NAME used by a path package (first party; its policy says audit-as-crates-io = false)
+    and by a crates.io package of another version; the crates.io version is fully audited AND still exempted (k=1: the exemption
+    lists more than is needed).  `prune` must drop the exemption: the crate is certified from audits alone.  (k=2: instead of a
+    local audit a peer serves the audit, nothing is recorded yet: the check must record it so that --locked passes.)"""
+    fp_v, tp_v = [("1.0.0", "2.0.0"), ("1.0.0", "2.0.0"), ("1.0.0", "2.0.0")][k % 3]
+    peer, url = PEERS[0]
+    pkgs = [{"name": "wsaaa", "version": "1.0.0", "source": "path", "workspace": True,
+             "deps": [{"name": "tpaaa", "version": fp_v, "source": "path", "kinds": ["normal"]},
+                      {"name": "tpbbb", "version": "1.0.0", "source": "registry", "kinds": ["normal"]}]},
+            {"name": "tpaaa", "version": fp_v, "source": "path", "workspace": False, "deps": []},
+            {"name": "tpaaa", "version": tp_v, "source": "registry", "workspace": False, "deps": []},
+            {"name": "tpbbb", "version": "1.0.0", "source": "registry", "workspace": False,
+             "deps": [{"name": "tpaaa", "version": tp_v, "source": "registry", "kinds": ["normal"]}]}]
+    audit = {"kind": "full", "version": tp_v, "criteria": ["safe-to-deploy"], "notes": "the crates.io one"}
+    store = {"criteria": {}, "policy": {"tpaaa": {"audit-as-crates-io": False}}, "imports": {}, "audits": {}, "wildcard_audits": {}, "trusted": {},
+             "exemptions": {"tpbbb": [{"version": "1.0.0", "criteria": ["safe-to-deploy"], "suggest": True, "notes": "n"}]},
+             "lock": {"audits": {}, "publisher": {}, "unpublished": {}}}
+    peers = {}
+    if k % 3 == 2:
+        store["imports"][peer] = {"url": [url]}
+        store["lock"]["audits"][peer] = {"criteria": {}, "audits": {}, "wildcard_audits": {}}
+        peers = {url: {"criteria": {}, "audits": {"tpaaa": [audit]}, "wildcard_audits": {}, "trusted": {}}}
+        cmds = [["check"], ["check", "--locked"], ["prune"], ["check", "--locked"]]
+    else:
+        store["audits"]["tpaaa"] = [audit]
+        store["exemptions"]["tpaaa"] = [{"version": tp_v, "criteria": ["safe-to-deploy"] if k % 3 == 0 else ["safe-to-deploy", "safe-to-run"],
+                                         "suggest": True, "notes": "no longer needed"}]
+        cmds = [["prune"], ["check"], ["check", "--locked"]]
+    registry = {"users": [[1, "user1", "User 1"]], "packages": {"tpaaa": [{"version": tp_v, "by": 1, "when": "2022-06-15"}]},
+                "meta": {"tpaaa": {"description": "something else entirely"}}}
+    remote = render_remote(peers, registry)
+    return {"id": cid, "kind": "history", "graph": {"packages": pkgs}, "store_struct": store,
+            "store": render_store(store), "steps": [{"args": a, "remote": remote} for a in cmds]}
+
+
 def scenario_unpublished_vs_peer(cid, k=0):
     """deterministic history: a path crate declared audit-as-crates-io whose version crates.io does not serve; the closest
     published version is audited locally, a configured peer serves a full audit of the exact version, imports.lock records
@@ -1988,6 +2101,33 @@ def gen_import_case(rng, cid):
 
 # ---------------------------------------------------------------------------
 # audit-as-crates-io / crate-policy cases (C08)
+
+def gen_audit_as_overlap_case(rng, cid):
+    """one crate NAME as a path (or git) package and as a crates.io package of another version, a VERSIONED policy entry for each
+    and nothing else wrong: the entry of the path version makes its explicit choice; the entry of the crates.io version either
+    says nothing about audit-as-crates-io (fine) or carries the key (true or false) — an entry that matches no path/git package,
+    which an unlocked `cargo vet` refuses to pass over"""
+    fv, tv = rng.sample([x for x in VERSIONS if "-" not in x], 2)
+    fsrc = rng.choice(["path", "path", "git:" + GITREV])
+    fp = {"name": "tpaaa", "version": fv, "source": fsrc, "workspace": False, "deps": [], "description": "a crate"}
+    tp = {"name": "tpaaa", "version": tv, "source": "registry", "workspace": False, "deps": [], "description": "a crate"}
+    mid = {"name": "tpbbb", "version": "1.0.0", "source": "registry", "workspace": False,
+           "deps": [{"name": "tpaaa", "version": tv, "source": "registry", "kinds": ["normal"]}]}
+    ws = {"name": "wsaaa", "version": "1.0.0", "source": "path", "workspace": True,
+          "deps": [{"name": "tpaaa", "version": fv, "source": fsrc, "kinds": ["normal"]},
+                   {"name": "tpbbb", "version": "1.0.0", "source": "registry", "kinds": ["normal"]}]}
+    pkgs = [ws, fp, tp, mid]
+    rng.shuffle(pkgs)
+    stray = rng.choice([None, None, True, False])
+    policy = {f"tpaaa:{vstr(fp)}": {"audit-as-crates-io": rng.random() < 0.5},
+              f"tpaaa:{vstr(tp)}": ({"notes": "the crates.io one"} if stray is None else {"audit-as-crates-io": stray})}
+    store = {"criteria": {}, "policy": policy, "imports": {}, "exemptions": {}, "audits": {}, "wildcard_audits": {},
+             "trusted": {}, "lock": {"audits": {}, "publisher": {}, "unpublished": {}}}
+    reg = {"tpaaa": [{"version": v, "by": 1, "when": "2022-01-01"} for v in sorted({tv, rng.choice(VERSIONS)})]}
+    case = {"id": cid, "kind": "audit_as", "graph": {"packages": pkgs}, "store_struct": store,
+            "registry": {"users": [[1, "user1", "User 1"]], "packages": reg, "meta": {"tpaaa": {"description": "a crate"}}}}
+    return finalize(case)
+
 
 def gen_audit_as_case(rng, cid):
     pkgs = gen_graph(rng)
